@@ -23,7 +23,6 @@ Definition pf_round (x : float) : float := B2Prim (Bnearbyint (prec_lt_emax_ := 
 Definition pc_enc_tpi : float := pf_cst enc_tpi_m enc_tpi_e.
 Definition pc_dec_tpi : float := pf_cst dec_tpi_m dec_tpi_e.
 Definition pc_1e9 : float := pf_cst dec_nanosecond_m dec_nanosecond_e.
-Definition pc_1e8 : float := pf_cst dec_subnanosecond_m dec_subnanosecond_e.
 Definition pc_half : float := pf_cst dec_round_m dec_round_e.
 
 Definition duration_seconds_pf (d : Z) : float :=
@@ -38,8 +37,8 @@ Definition dec_pf (start ipd ticks : Z) : Z * Z :=
   let sub := PrimFloat.mul pc_1e9 (PrimFloat.sub fs (pf_floor fs)) in
   let '(sub, fs) := (if PrimFloat.leb pc_1e9 sub then (PrimFloat.sub sub pc_1e9, PrimFloat.add fs (pf_of_Z 1))
                      else (sub, fs)) in
-  let sec := wrap U64 (start + wrap U64 (pf_trunc (PrimFloat.div (pf_round (PrimFloat.mul fs pc_1e8)) pc_1e8))) in
+  let sec := wrap U64 (start + wrap U64 (pf_trunc (pf_floor fs))) in
   let nsec := wrap U32 (wrap I64 (pf_trunc (PrimFloat.add sub pc_half))) in
-  (sec, nsec).
+  if 1000000000 <=? nsec then (wrap U64 (sec + 1), wrap U32 (nsec - 1000000000)) else (sec, nsec).
 
 Definition dec_offset_pf (ipd ticks : Z) : Z := let '(s, n) := dec_pf 0 ipd ticks in s * 1000000000 + n.
